@@ -30,7 +30,7 @@ def run(tier):
     for k, variant in enumerate(("range", "blocks", "multi")):
         sets.append(["rand", "@OUT", variant, 3, 4, 300 if quick else 6000, vlib.SEED * 10 + k])
         sets.append(["rand", "@OUT", variant, 4, 4, 100 if quick else 2000, vlib.SEED * 10 + k + 5])
-    sets.append(["wrap", "@OUT", 200 if quick else 5000, vlib.SEED])
+    sets.append(["wrap", "@OUT", 400 if quick else 8000, vlib.SEED])
     sets.append(["signed", "@OUT", 300 if quick else 6000, vlib.SEED + 3])
     traces = c.drive(exes["drv_pr"], sets, tag="sched", timeout=2400)
     # 3. free-running stress under ThreadSanitizer
